@@ -67,6 +67,12 @@ from ..util.concurrency import AsyncAdaptedLock
 
 _T = TypeVar("_T", bound=Any)
 
+# guards the check-then-create sequences below that set up per-instance
+# listener collections and the "exec once" mutex.  These span several
+# bytecodes, so the GIL alone (util.mini_gil is a no-op on GIL builds) does
+# not keep two threads from each creating their own object.
+_collection_mutex = threading.RLock()
+
 if typing.TYPE_CHECKING:
     from .base import _Dispatch
     from .base import _DispatchCommon
@@ -344,9 +350,9 @@ class _EmptyListener(_InstanceLevelDispatch[_ET]):
         obj = cast("_Dispatch[_ET]", obj)
 
         assert obj._instance_cls is not None
-        existing = getattr(obj, self.name)
 
-        with util.mini_gil:
+        with _collection_mutex:
+            existing = getattr(obj, self.name)
             if existing is self or isinstance(existing, _JoinedListener):
                 result = _ListenerCollection(self.parent, obj._instance_cls)
             else:
@@ -433,7 +439,7 @@ class _CompoundListener(_InstanceLevelDispatch[_ET]):
         self._is_asyncio = True
 
     def _get_exec_once_mutex(self) -> _MutexProtocol:
-        with util.mini_gil:
+        with _collection_mutex:
             if self._exec_once_mutex is not None:
                 return self._exec_once_mutex
 
